@@ -21,6 +21,23 @@ CLAIMED = True
 COQ_MODULES = ["C14_Check", "C14_Proofs", "C14_CheckVcf", "C14_ProofsVcf"]
 PROPERTY_MODULE = "C14_Property"
 ALLOWED_AXIOMS = []
+
+# The MiniPy model of these functions is regenerated from the current source on every run
+# (harness/pytrans.py) and proved equal to the hand-written models in coq/translated/TV_C14.v.
+TRANSLATION = {
+    "spec": {
+        "module": "Gen_SimGenotype",
+        "classes": [("haptools/admix_storage.py", "HaplotypeSegment", 1)],
+        "functions": [
+            ("haptools/sim_genotype.py", "_find_coord"),
+            ("haptools/sim_genotype.py", "_find_random_sample"),
+            ("haptools/sim_genotype.py", "start_segment"),
+            ("haptools/sim_genotype.py", "get_segment"),
+        ],
+    },
+    "models": ["TVM_C14"],   # definitions only: evaluation of the translated code (tv_kernel relation)
+    "proofs": ["TV_C14"],    # translation-validation theorems
+}
 RULE = (
     "kernel: 1-12 calls on a table of 1-4 reference samples, interval ends from a 12-point grid so that equal, "
     "nested, overlapping and abutting (shared end point, end+1) intervals are frequent; non-trivial = some call "
@@ -441,7 +458,24 @@ class Params(Relation):
         return "params validate_params accepts --no_replacement with fewer samples in a population than simulated samples"
 
 
-RELATIONS = [Kernel(), Norep(), Params()]
+class TVKernel(Kernel):
+    """The same generated calls, evaluated against the MiniPy syntax regenerated from the current source
+    (translator + interpreter validation); holds is the kernel relation's property checker."""
+    name = "tv_kernel"
+    coq_lib = "HVG"
+    coq_module = "TVM_C14"
+    coq_check = "check_tv_kernel"
+    coq_case_type = "C14_Check.kcase"
+    coq_model = "model_tv_kernel"
+    coq_imports = ["Tracts", "C01_Model", "C14_Model", "C14_Check"]
+    budget = {"quick": 600, "thorough": 6000}
+
+    def signature(self, inp, obs):
+        return "tv_" + super().signature(inp, obs)
+
+
+
+RELATIONS = [Kernel(), Norep(), Params(), TVKernel()]
 
 LEVEL_TEXT = (
     "Coq theorems over all histories of _find_coord/_find_random_sample calls and all shuffles (no size bound) about a "
